@@ -53,7 +53,17 @@ def no_alias_writes(index, rep):
         rep.violation(rule, f"Parameters.{fn.name}: {name} is {src}",
                       f"`{norm_src(st)[:80]}` changes `{name}` in place, and `{name}` is the stored series `{src}` itself (no copy): the series "
                       "handed to the optimiser is silently rewritten (e.g. meat of the final round minus meat of round 1)", loc=loc(PARAMS, st))
-    if not hits:
+    # ... nor anywhere else in src/ (exporters, plotters, validators read the same objects the rounds hand on)
+    from .memo import storage_alias_writes
+    rels = [r_ for r_ in index.py_files("src") if not r_.endswith("food_system/food.py")]
+    seen_st = {id(st) for _, st, _, _ in hits}
+    more = [h_ for h_ in storage_alias_writes(index, rels) if id(h_[2]) not in seen_st and not (h_[0] == PARAMS and any(h_[2].lineno == st.lineno for _, st, _, _ in hits))]
+    for rel, fn, st, name, src in more:
+        rep.violation(rule, f"{fn.name}: {name} is {src}",
+                      f"`{norm_src(st)[:80]}` changes `{name}` in place, and `{name}` is the storage of the series `{src}` of an object that lives "
+                      "outside the function (no copy): the series the caller and the later rounds still hold is silently rewritten", loc=loc(rel, st))
+    rep.note_analysed("files_scanned_for_in_place_writes_through_aliases", len(rels))
+    if not hits and not more:
         rep.ok(rule, "no series of the hand-off tables is changed in place through an alias", detail="x = table[key].<lane> followed by x -= / x[...] = / x.fill")
 
 
@@ -150,7 +160,11 @@ def meat(index, rep):
     ok = len(call) == 1
     if ok:
         from .core import bind_args as _ba5
-        kw = {k_: norm_src(v_) for k_, v_ in _ba5(call[0], calc).items()}
+        from .core import Inliner as _Inl5b, plain_text as _pt5b
+        holder = next((s_ for s_ in ast.walk(g) if isinstance(s_, (ast.Assign, ast.Expr, ast.AugAssign, ast.Return)) and call[0] in list(ast.walk(s_))), None)
+        at5 = _Inl5b(g).at(holder) if holder is not None else None
+        # arguments after copy propagation: a month's five numbers gathered in a local first read the same
+        kw = {k_: (_pt5b(at5.expr(v_)) if at5 is not None else norm_src(v_)) for k_, v_ in _ba5(call[0], calc).items()}
         pairs = {"init_chickens_culled": "chickens_culled", "init_pigs_culled": "pigs_culled",
                  "init_small_animals_nonchicken_culled": "small_animals_nonchicken_culled",
                  "init_medium_animals_nonpigs_culled": "medium_animals_nonpig_culled", "init_large_animals_culled": "large_animals_culled"}
@@ -443,11 +457,19 @@ def milk(index, rep):
         ok = len(herd_args) == 1 and herd_args[0] == MILK_POP_PARAM[0]
     rep.check(ok, rule, "herd = this round's milk-bearing animals", "the milking herd is not get_total_milk_bearing_animals() of the same round's herd object",
               loc=loc(PARAMS, im))
-    tm = index.func(ANIM, "CalculateFeedAndMeat.get_total_milk_bearing_animals")
-    txt = norm_src(tm)
-    import re as _re
-    m_ = _re.search(r"if 'milk' in (\w+)\.animal_type", txt)
-    rep.check(bool(m_) and f"+= np.array({m_.group(1)}.population)" in txt, rule, "milk-bearing = sum of milk species' populations",
+    # read with the helpers of the class it calls merged in (a shared "sum the herds that ..." helper with a predicate argument reads the same)
+    tm = index.flat_func(ANIM, "CalculateFeedAndMeat.get_total_milk_bearing_animals", depth=2)
+    ok = False
+    for lp in [n_ for n_ in walk_no_nested(tm) if isinstance(n_, ast.For) and isinstance(n_.target, ast.Name) and norm_src(n_.iter) == "self.all_animals"]:
+        var = lp.target.id
+        for cond in [n_ for n_ in lp.body if isinstance(n_, ast.If) and not n_.orelse]:
+            if norm_src(cond.test) != f"'milk' in {var}.animal_type":
+                continue
+            adds = [n_ for n_ in cond.body if isinstance(n_, ast.AugAssign) and isinstance(n_.op, ast.Add) and isinstance(n_.target, ast.Name)
+                    and norm_src(n_.value) in (f"np.array({var}.population)", f"{var}.population")]
+            rets = [r_ for r_ in tm.body if isinstance(r_, ast.Return)]
+            ok = ok or (len(adds) == 1 and len(cond.body) == 1 and len(rets) == 1 and norm_src(rets[0].value) == adds[0].target.id)
+    rep.check(ok, rule, "milk-bearing = sum of milk species' populations",
               "get_total_milk_bearing_animals no longer sums the population of the milk species", loc=loc(ANIM, tm))
     rep.require_min(rule, 5)
 
